@@ -8,6 +8,28 @@ use composition::oligo::OligoComputer;
 use composition::oligocgr::OligoCgrComputer;
 use kmer::kmer::KmerGenerator;
 
+/// prefixes of a record pool whose output (header + the first n rows) lands exactly on a multiple of a page or of a
+/// write buffer (first two hits per size), with both neighbours
+pub fn boundary_prefixes(row_lens: &[usize], header: usize) -> Vec<usize> {
+    let mut out: Vec<usize> = Vec::new();
+    for b in [4096usize, 8192, 65_536, 1 << 20] {
+        let (mut sum, mut found) = (header, 0);
+        for (i, l) in row_lens.iter().enumerate() {
+            sum += l;
+            if sum % b == 0 {
+                out.extend([i, i + 1, (i + 2).min(row_lens.len())]);
+                found += 1;
+                if found == 2 {
+                    break;
+                }
+            }
+        }
+    }
+    out.sort();
+    out.dedup();
+    out
+}
+
 /// Record ids are part of the input: a third of the record lists (chosen by their content, so that a replay
 /// writes the same file) give every record the same id, a third use two ids alternately, the rest unique ids.
 pub fn rec_id(records: &[Vec<u8>], i: usize) -> String {
@@ -719,6 +741,9 @@ fn c11_file(ctx: &mut Ctx, records: &[Vec<u8>], s_size: usize, threads: usize, m
         c.vectorise()
     });
     let text = std::fs::read_to_string(&outp).unwrap_or_default();
+    if !text.is_empty() && text.len() % 4096 == 0 {
+        ctx.rep.count("outputs_on_a_4k_multiple", 1);
+    }
     let lines: Vec<&str> = text.split('\n').collect();
     let lines = if lines.last() == Some(&"") { &lines[..lines.len() - 1] } else { &lines[..] };
     if bad_record {
@@ -770,6 +795,8 @@ pub fn cgr_record_sets() -> Vec<(&'static str, Vec<Vec<u8>>)> {
     sets.push(("bad-all-N", vec![b"AC".to_vec(), b"NNN".to_vec()]));
     sets.push(("bad-trailing-n-lower", vec![b"acgtn".to_vec()]));
     sets.push(("bad-last", vec![b"ACG".to_vec(), b"TT".to_vec(), b"TTx".to_vec()]));
+    sets.push(("single-bases", (0..175_000usize).map(|i| vec![b"ACGTTGCA"[(i * 5 + i / 8) % 8]]).collect()));
+    sets.push(("twenty-thousand", (0..20_000usize).map(|i| model::text_of((i * 2654435761usize % 4096) as u128, 6)[..(1 + (i * 7) % 6)].to_vec()).collect()));
     sets.push(("repeating", repeating_records().into_iter().map(|r| r.iter().map(|&b| if b == b'N' { b'A' } else { b }).collect()).collect()));
     sets
 }
@@ -925,7 +952,26 @@ pub fn c11(ctx: &mut Ctx) {
     // file path
     let mut sh = ctx.shard;
     let mut nf = 0u64;
+    // outputs whose size is exactly a multiple of 4 KiB / 8 KiB / 64 KiB (and one row less, one more)
+    {
+        let pool = cgr_record_sets().into_iter().find(|(t, _)| *t == "twenty-thousand").unwrap().1;
+        for (sz, c) in [&comps[0], &comps[4]] {
+            let lens: Vec<usize> = pool.iter().map(|r| cgr_row(&c.verif_vectorise_one(r).unwrap()).len() + 1).collect();
+            for n in boundary_prefixes(&lens, 0) {
+                for (threads, mem) in [(1usize, 4usize << 30), (4, 4 << 30), (3, 1000)] {
+                    if sh.mine() {
+                        c11_file(ctx, &pool[..n], *sz, threads, mem, &format!("twenty-thousand:{n}"));
+                        nf += 1;
+                        ctx.rep.count("cases.size_boundaries", 1);
+                    }
+                }
+            }
+        }
+    }
     for (tag, recs) in cgr_record_sets() {
+        if tag == "twenty-thousand" || tag == "single-bases" {
+            continue;
+        }
         for threads in 1..=16usize {
             for mem in [1usize, 5, 4 << 30] {
                 for sz in [1usize, 16] {
@@ -945,6 +991,29 @@ pub fn c11(ctx: &mut Ctx) {
                 if sh.mine() {
                     c11_file(ctx, &pool[..nrec], 16, threads, mem, &format!("five-hundred:{nrec}"));
                     nf += 1;
+                }
+            }
+        }
+    }
+    // record counts at the powers of two, and (rows of single-base records at S=4 all have 6 bytes) outputs of exactly
+    // 4 KiB, 8 KiB, 64 KiB and 1 MiB
+    {
+        let pool20 = cgr_record_sets().into_iter().find(|(t, _)| *t == "twenty-thousand").unwrap().1;
+        for &nrec in crate::enumr::POW2_COUNTS.iter() {
+            for (threads, mem) in [(1usize, 4usize << 30), (4, 4 << 30), (3, 2000)] {
+                if sh.mine() {
+                    c11_file(ctx, &pool20[..nrec], 16, threads, mem, &format!("twenty-thousand:{nrec}"));
+                    nf += 1;
+                }
+            }
+        }
+        let singles = cgr_record_sets().into_iter().find(|(t, _)| *t == "single-bases").unwrap().1;
+        for nrec in crate::conc::boundary_counts(0, 6, singles.len() - 1) {
+            for (threads, mem) in [(1usize, 4usize << 30), (4, 4 << 30)] {
+                if sh.mine() {
+                    c11_file(ctx, &singles[..nrec], 4, threads, mem, &format!("single-bases:{nrec}"));
+                    nf += 1;
+                    ctx.rep.count("cases.size_boundaries", 1);
                 }
             }
         }
@@ -1025,6 +1094,9 @@ fn c12_file(ctx: &mut Ctx, records: &[Vec<u8>], k: usize, s_size: usize, norm: b
         Ok(Ok(())) => {}
     }
     let text = std::fs::read_to_string(&outp).unwrap_or_default();
+    if !text.is_empty() && text.len() % 4096 == 0 {
+        ctx.rep.count("outputs_on_a_4k_multiple", 1);
+    }
     let lines: Vec<&str> = text.split('\n').collect();
     let lines = if lines.last() == Some(&"") { &lines[..lines.len() - 1] } else { &lines[..] };
     if lines.len() != records.len() {
@@ -1151,6 +1223,15 @@ pub fn c12_record_sets() -> Vec<(&'static str, Vec<Vec<u8>>)> {
             lf
         }),
         ("repeating", repeating_records()),
+        ("twenty-thousand", (0..20_000usize).map(|i| model::text_of((i * 2654435761usize % 65536) as u128, 8)[..(1 + (i * 5) % 8)].to_vec()).collect()),
+        ("fixed-rows", {
+            let mut comp = OligoCgrComputer::new("-".into(), "-".into(), 1, 16);
+            comp.set_norm(false);
+            let row_len = |r: &Vec<u8>| comp.verif_vectorise_one(r).unwrap().iter().map(|v| format!("({},{},{})", v.0 .0, v.0 .1, v.1)).collect::<Vec<_>>().join(" ").len() + 1;
+            let all: Vec<Vec<u8>> = (0..140_000usize).map(|i| model::text_of((i * 2654435761usize % 65536) as u128, 8)[..(2 + (i * 5) % 7)].to_vec()).collect();
+            let l0 = row_len(&all[0]);
+            all.into_iter().filter(|r| row_len(r) == l0).collect()
+        }),
     ]
 }
 
@@ -1242,7 +1323,28 @@ pub fn c12(ctx: &mut Ctx) {
     let mut sh = ctx.shard;
     let mut nf = 0u64;
     let sets = c12_record_sets();
+    // outputs whose size is exactly a multiple of 4 KiB / 8 KiB / 64 KiB (and one row less, one more)
+    {
+        let pool = &sets.iter().find(|(t, _)| *t == "twenty-thousand").unwrap().1;
+        for (k, norm) in [(1usize, false), (2, true), (2, false)] {
+            let mut comp = OligoCgrComputer::new("-".into(), "-".into(), k, 16);
+            comp.set_norm(norm);
+            let lens: Vec<usize> = pool.iter().map(|r| comp.verif_vectorise_one(r).unwrap().iter().map(|v| format!("({},{},{})", v.0 .0, v.0 .1, v.1)).collect::<Vec<_>>().join(" ").len() + 1).collect();
+            for n in boundary_prefixes(&lens, 0) {
+                for (threads, mem) in [(1usize, 4usize << 30), (4, 4 << 30), (3, 1000)] {
+                    if sh.mine() {
+                        c12_file(ctx, &pool[..n], k, 16, norm, threads, mem, &format!("twenty-thousand:{n}"));
+                        nf += 1;
+                        ctx.rep.count("cases.size_boundaries", 1);
+                    }
+                }
+            }
+        }
+    }
     for (tag, recs) in &sets {
+        if *tag == "twenty-thousand" || *tag == "fixed-rows" {
+            continue;
+        }
         for k in [1usize, 2, 3, 5] {
             for threads in [1usize, 2, 4, 16] {
                 for mem in [1usize, 5, 4 << 30] {
@@ -1263,6 +1365,33 @@ pub fn c12(ctx: &mut Ctx) {
                 if sh.mine() {
                     c12_file(ctx, &pool[..nrec], 2, 16, norm, threads, mem, &format!("three-hundred:{nrec}"));
                     nf += 1;
+                }
+            }
+        }
+    }
+    {
+        let pool20 = &sets.iter().find(|(t, _)| *t == "twenty-thousand").unwrap().1;
+        for &nrec in crate::enumr::POW2_COUNTS.iter() {
+            for (threads, mem, norm) in [(1usize, 4usize << 30, false), (4, 4 << 30, true), (3, 2000, false)] {
+                if sh.mine() {
+                    c12_file(ctx, &pool20[..nrec], 2, 16, norm, threads, mem, &format!("twenty-thousand:{nrec}"));
+                    nf += 1;
+                }
+            }
+        }
+        // rows of one fixed length (records whose counts all have one digit): outputs of exactly 4 KiB ... 1 MiB
+        let fixed = &sets.iter().find(|(t, _)| *t == "fixed-rows").unwrap().1;
+        let l0 = {
+            let mut comp = OligoCgrComputer::new("-".into(), "-".into(), 1, 16);
+            comp.set_norm(false);
+            comp.verif_vectorise_one(&fixed[0]).unwrap().iter().map(|v| format!("({},{},{})", v.0 .0, v.0 .1, v.1)).collect::<Vec<_>>().join(" ").len() + 1
+        };
+        for nrec in crate::conc::boundary_counts(0, l0, fixed.len() - 1) {
+            for threads in [1usize, 4] {
+                if sh.mine() {
+                    c12_file(ctx, &fixed[..nrec], 1, 16, false, threads, 4 << 30, &format!("fixed-rows:{nrec}"));
+                    nf += 1;
+                    ctx.rep.count("cases.size_boundaries", 1);
                 }
             }
         }
